@@ -26,6 +26,7 @@ class Reach:
         for k, v in env.items():
             self.all_defs.setdefault(k, []).extend(v)
         self._nested = []
+        self._loops = []
         self.block(func.body, env)
         # nested closures: flow-insensitive view of the outer variables
         for n in self._nested:
@@ -156,7 +157,11 @@ class Reach:
             self.expr(st.exc, env)
             self.expr(st.cause, env)
             return True
-        if isinstance(st, (ast.Break, ast.Continue)):
+        if isinstance(st, ast.Break):
+            if self._loops:
+                self._loops[-1].append(self.copy(env))
+            return True
+        if isinstance(st, ast.Continue):
             return True
         if isinstance(st, ast.If):
             self.expr(st.test, env)
@@ -172,23 +177,32 @@ class Reach:
             return False
         if isinstance(st, (ast.For, ast.AsyncFor)):
             self.expr(st.iter, env)
-            start = self.copy(env)
+            self._loops.append([])
             for _ in range(2):
                 loop = self.copy(env)
                 self.bind(st.target, ("iter", st.iter), loop)
                 self.block(st.body, loop)
                 new = self.merge(env, loop)
                 env.clear(); env.update(new)
+            breaks = self._loops.pop()
             self.block(st.orelse, env)
+            for b in breaks:
+                new = self.merge(env, b)
+                env.clear(); env.update(new)
             return False
         if isinstance(st, ast.While):
+            self._loops.append([])
             for _ in range(2):
                 self.expr(st.test, env)
                 loop = self.copy(env)
                 self.block(st.body, loop)
                 new = self.merge(env, loop)
                 env.clear(); env.update(new)
+            breaks = self._loops.pop()
             self.block(st.orelse, env)
+            for b in breaks:
+                new = self.merge(env, b)
+                env.clear(); env.update(new)
             return False
         if isinstance(st, (ast.With, ast.AsyncWith)):
             for it in st.items:
@@ -264,6 +278,7 @@ class Reach:
         inner.at = self.at
         inner.all_defs = {}
         inner._nested = []
+        inner._loops = []
         args = node.args
         env = {}
         for a in args.posonlyargs + args.args + args.kwonlyargs + ([args.vararg] if args.vararg else []) + ([args.kwarg] if args.kwarg else []):
